@@ -31,7 +31,7 @@ from pipefunc._utils import (
     is_running_in_ipynb,
     requires,
 )
-from pipefunc.cache import DiskCache, HybridCache, LRUCache, SimpleCache
+from pipefunc.cache import DiskCache, HybridCache, LRUCache, SimpleCache, to_hashable
 from pipefunc.exceptions import UnusedParametersError
 from pipefunc.lazy import _LazyFunction, task_graph
 from pipefunc.map._mapspec import (
@@ -128,8 +128,9 @@ class Pipeline:
 
     1. For ``pipeline.run`` and ``pipeline(...)`` ("calling the pipeline as a function"):
 
-    - The cache key is computed based solely on the root arguments provided to the pipeline.
-    - Only the root arguments need to be hashable.
+    - The cache key is computed based on the root arguments provided to the pipeline and on
+      the ``bound`` arguments of the function and of the functions it depends on.
+    - Only the root arguments and bound values need to be hashable.
     - The root arguments uniquely determine the output across the entire pipeline, allowing
       caching to be simple and effective when computing the final result.
     - A call that directly provides the value of an intermediate output (instead of the
@@ -540,8 +541,9 @@ class Pipeline:
             else:
                 cache_key = compute_cache_key(
                     func.output_name,
-                    self._func_defaults(func) | flat_scope_kwargs | func._bound,
+                    self._func_defaults(func) | flat_scope_kwargs,
                     root_args,
+                    self._bound_items(output_name),
                 )
             return_now, result_from_cache = get_result_from_cache(
                 func,
@@ -892,6 +894,20 @@ class Pipeline:
         }
         self._internal_cache.output_dependencies[output_name] = names
         return names
+
+    def _bound_items(self, output_name: OUTPUT_TYPE) -> tuple[tuple[str, Any], ...]:
+        """Return the bound values that ``output_name`` depends on as hashable cache key items."""
+        if (r := self._internal_cache.bound_items.get(output_name)) is not None:
+            return r
+        func = self.output_to_func[output_name]
+        funcs = [func, *(self.output_to_func[name] for name in self.func_dependencies(func))]
+        items = tuple(
+            (f"bound:{','.join(at_least_tuple(f.output_name))}:{arg}", to_hashable(value))
+            for f in funcs
+            for arg, value in sorted(f._bound.items())
+        )
+        self._internal_cache.bound_items[output_name] = items
+        return items
 
     def func_dependents(self, name: OUTPUT_TYPE | PipeFunc) -> list[OUTPUT_TYPE]:
         """Return the functions that depend on a specific input/output.
@@ -2168,3 +2184,4 @@ class _PipelineInternalCache:
     func: dict[OUTPUT_TYPE, _PipelineAsFunc] = field(default_factory=dict)
     func_defaults: dict[OUTPUT_TYPE, dict[str, Any]] = field(default_factory=dict)
     output_dependencies: dict[OUTPUT_TYPE, set[str]] = field(default_factory=dict)
+    bound_items: dict[OUTPUT_TYPE, tuple[tuple[str, Any], ...]] = field(default_factory=dict)
